@@ -3,7 +3,6 @@
 package blockchain
 
 import (
-	"io"
 	"github.com/elastos/Elastos.ELA/core/types"
 	"math"
 
@@ -12,7 +11,6 @@ import (
 	common2 "github.com/elastos/Elastos.ELA/core/types/common"
 	"github.com/elastos/Elastos.ELA/core/types/interfaces"
 	"github.com/elastos/Elastos.ELA/core/types/outputpayload"
-	"github.com/elastos/Elastos.ELA/core/types/payload"
 	"github.com/elastos/Elastos.ELA/dpos/state"
 	"github.com/elastos/Elastos.ELA/zzverif/nd"
 )
@@ -50,12 +48,6 @@ func ZZ_C11_schedule() {
 	}
 }
 
-type zzC11Arbiters struct {
-	state.Arbitrators
-	v2Active uint32
-}
-
-func (m *zzC11Arbiters) GetDPoSV2ActiveHeight() uint32 { return m.v2Active }
 
 // ZZ_C11_split: after DPoS v2 is active, an accepted coinbase has exactly three
 // outputs that pay, in total, exactly subsidy + fees, with the CR share
@@ -128,25 +120,7 @@ func ZZ_C11_split() {
 	}
 }
 
-// zzC11tx: checkCoinbaseTransactionContext only reads the outputs of the
-// coinbase; the blockchain package cannot import core/transaction (import
-// cycle), so the coinbase is a minimal interfaces.Transaction.
-type zzC11tx struct {
-	interfaces.Transaction
-	outs []*common2.Output
-}
 
-func (t *zzC11tx) Outputs() []*common2.Output { return t.outs }
-
-func zzC11coinbase(outs []*common2.Output) interfaces.Transaction {
-	_ = payload.CoinBase{}
-	return &zzC11tx{outs: outs}
-}
-
-func (t *zzC11tx) Fee() common.Fixed64            { return 0 }
-func (t *zzC11tx) Serialize(w io.Writer) error    { return nil }
-func (m *zzC11Arbiters) GetArbitersRoundReward() map[common.Uint168]common.Fixed64 { return nil }
-func (m *zzC11Arbiters) GetFinalRoundChange() common.Fixed64                       { return 0 }
 
 // ZZ_C11_block: the same verdict through the block-level driver
 // (checkTxsContext -> GetBlockDPOSReward -> checkCoinbaseTransactionContext)
